@@ -52,7 +52,7 @@ impl Property for C16 {
     fn budget(&self, tier: Tier) -> Budget {
         match tier {
             Tier::Quick => Budget {
-                seconds: 25,
+                seconds: 60,
                 max_cases: 9_000,
             },
             Tier::Thorough => Budget {
@@ -300,7 +300,13 @@ impl Property for C16 {
                             p.set("rerun_reference_after", 1);
                         }
                         if let Some(mut v) = check_point(&p, &input, &reference, ctx) {
-                            v.reduced = Some(Box::new(p));
+                            {
+                                let mut p = p;
+                                // a sweep is a history of runs cut short in one thread: the point
+                                // is reported together with one earlier run of itself
+                                p.set("same_run_before", 1);
+                                v.reduced = Some(Box::new(p));
+                            }
                             return Some(v);
                         }
                     }
@@ -339,7 +345,13 @@ impl Property for C16 {
                             p.set("rerun_reference_after", 1);
                         }
                         if let Some(mut v) = check_point(&p, &input, &reference, ctx) {
-                            v.reduced = Some(Box::new(p));
+                            {
+                                let mut p = p;
+                                // a sweep is a history of runs cut short in one thread: the point
+                                // is reported together with one earlier run of itself
+                                p.set("same_run_before", 1);
+                                v.reduced = Some(Box::new(p));
+                            }
                             return Some(v);
                         }
                     }
@@ -358,7 +370,13 @@ impl Property for C16 {
                         sticky: rng.chance(1, 2),
                     });
                     if let Some(mut v) = check_point(&p, &input, &reference, ctx) {
-                        v.reduced = Some(Box::new(p));
+                        {
+                                let mut p = p;
+                                // a sweep is a history of runs cut short in one thread: the point
+                                // is reported together with one earlier run of itself
+                                p.set("same_run_before", 1);
+                                v.reduced = Some(Box::new(p));
+                            }
                         return Some(v);
                     }
                 }
@@ -405,6 +423,10 @@ fn first_fault_event(events: &[Event], chan: Chan) -> Option<u32> {
 /// One explicit fault plan against the reference run.
 fn check_point(case: &Case, input: &[u8], reference: &RunOut, ctx: &mut Ctx) -> Option<Violation> {
     ctx.sub_begin();
+    if case.param("same_run_before") == 1 {
+        // history: the same faulted run once before, in the same thread
+        let _ = ctx.exec(case_spec(case, input));
+    }
     let r = ctx.exec(case_spec(case, input));
     if case.param("rerun_reference_after") == 1 {
         // history: the fault-free run once more, now that a run was cut short in this thread
@@ -749,7 +771,13 @@ fn check_files_in(case: &Case, ctx: &mut Ctx, datas: &[Vec<u8>], paths: &[String
                 });
             }
             if let Some(mut v) = check_file_point(&p, paths, datas, &reference, ctx, dir) {
-                v.reduced = Some(Box::new(p));
+                {
+                                let mut p = p;
+                                // a sweep is a history of runs cut short in one thread: the point
+                                // is reported together with one earlier run of itself
+                                p.set("same_run_before", 1);
+                                v.reduced = Some(Box::new(p));
+                            }
                 return Some(v);
             }
         }
@@ -759,6 +787,9 @@ fn check_files_in(case: &Case, ctx: &mut Ctx, datas: &[Vec<u8>], paths: &[String
 
 fn check_file_point(case: &Case, paths: &[String], datas: &[Vec<u8>], reference: &RunOut, ctx: &mut Ctx, dir: Option<&str>) -> Option<Violation> {
     ctx.sub_begin();
+    if case.param("same_run_before") == 1 {
+        let _ = ctx.exec(files_run(case, paths, datas, &case.files, dir));
+    }
     let r = ctx.exec(files_run(case, paths, datas, &case.files, dir));
     let planned: Vec<usize> = (0..case.files.len())
         .filter(|i| case.files[*i].fault.is_some() || case.files[*i].open_fails.is_some())
@@ -935,7 +966,13 @@ fn check_lists_in(case: &Case, ctx: &mut Ctx, datas: &[Vec<u8>], lay: &DirLayout
                     });
                 }
                 if let Some(mut v) = check_list_point(&p, lay, datas, &reference, ctx) {
-                    v.reduced = Some(Box::new(p));
+                    {
+                                let mut p = p;
+                                // a sweep is a history of runs cut short in one thread: the point
+                                // is reported together with one earlier run of itself
+                                p.set("same_run_before", 1);
+                                v.reduced = Some(Box::new(p));
+                            }
                     return Some(v);
                 }
             }
@@ -946,6 +983,9 @@ fn check_lists_in(case: &Case, ctx: &mut Ctx, datas: &[Vec<u8>], lay: &DirLayout
 
 fn check_list_point(case: &Case, lay: &DirLayout, datas: &[Vec<u8>], reference: &RunOut, ctx: &mut Ctx) -> Option<Violation> {
     ctx.sub_begin();
+    if case.param("same_run_before") == 1 {
+        let _ = ctx.exec(sim_layout_spec(case, lay, datas, &case.files, &case.dirs));
+    }
     let r = ctx.exec(sim_layout_spec(case, lay, datas, &case.files, &case.dirs));
     let planned: Vec<usize> = (0..case.dirs.len().min(lay.dirs.len()))
         .filter(|j| case.dirs[*j].open_fails.is_some() || case.dirs[*j].entry_fault.is_some())
